@@ -325,6 +325,7 @@ def run(ctx, chk, tier="quick"):
     _already_populated(ctx, chk, load, lflow)
     # ---------------- O4 (ii): non-uniform step
     _nonuniform(ctx, chk, load, lflow)
+    _load_target(ctx, chk, load)
     from ..sqlrules import conflict_clauses
     conflict_clauses(ctx, chk, "C11.O4", ("load",), "load",
                      "a rainfall, ET or water-level file in which a timestamp occurs twice (a zero-length step) is merged silently instead of refused: the staging tables' primary key is what refuses it")
@@ -464,6 +465,55 @@ def _already_populated(ctx, chk, load, lflow):
                "a populated dataset is refused before any INSERT runs", key="load|already-populated",
                why="loading twice would merge two datasets in the staging tables")
     chk.count("load_write_nodes", len(writes))
+
+
+def _load_target(ctx, chk, load):
+    """C11.O4 (i), premise: both refusals of an already populated dataset (the sqlite_master guard and the CREATE TABLE
+    collision) look at the connection load_data is given.  In the CLI that connection must be the data file itself
+    (sqlite3.connect(args.<db>)), and nothing may copy another database over the file (Connection.backup replaces its
+    destination wholesale)."""
+    disp, branches = dispatch_branches(ctx)
+    br = branches.get("load")
+    if br is None:
+        chk.indeterminate("C11.O4", where_of(disp, disp.node), "dispatch branch of the load command not found")
+        return
+    from ..cli import entry_binding
+    try:
+        bind, call = entry_binding(ctx, disp, br, load)
+    except Exception:
+        bind, call = None, None
+    conn_param = load.params[0] if load.params else "connection"
+    cv = (bind or {}).get(conn_param)
+    if cv is None:
+        chk.indeterminate("C11.O4", where_of(disp, br), "the connection handed to load_data by the CLI is not read")
+        return
+    # resolve the name to the `with sqlite3.connect(X) as name` / `name = sqlite3.connect(X)` that binds it
+    src = None
+    if isinstance(cv, ast.Name):
+        for n in ast.walk(br):
+            if isinstance(n, ast.With):
+                for it in n.items:
+                    if isinstance(it.optional_vars, ast.Name) and it.optional_vars.id == cv.id:
+                        src = it.context_expr
+            if isinstance(n, ast.Assign) and len(n.targets) == 1 and isinstance(n.targets[0], ast.Name) and n.targets[0].id == cv.id:
+                src = n.value
+    else:
+        src = cv
+    while isinstance(src, ast.Call) and (dotted_name(src.func) or "").split(".")[-1] == "closing" and src.args:
+        src = src.args[0]
+    if not (isinstance(src, ast.Call) and (dotted_name(src.func) or "").endswith("connect") and src.args):
+        chk.indeterminate("C11.O4", where_of(disp, br), "the connection handed to load_data (%s) is not bound to a sqlite3.connect call in the dispatch" % ast.unparse(cv)[:40])
+        return
+    target = src.args[0]
+    is_cli_path = isinstance(target, ast.Attribute) and isinstance(target.value, ast.Name)
+    chk.ob("C11.O4", is_cli_path, where_of(disp, src), "load_data works on sqlite3.connect(%s)" % ast.unparse(target)[:50],
+           "the data file named on the command line", key="cli|load|target-connection",
+           why="the refusal of an already populated dataset inspects the connection it is given: on a fresh in-memory or temporary database it never fires")
+    backups = [c for c in ast.walk(br) if isinstance(c, ast.Call) and isinstance(c.func, ast.Attribute) and c.func.attr in ("backup", "iterdump", "deserialize")]
+    chk.ob("C11.O4", not backups, where_of(disp, backups[0] if backups else br),
+           ("the load command calls %s" % ast.unparse(backups[0])[:60]) if backups else "the load command copies no database over the data file",
+           "nothing replaces the content of the data file wholesale", key="cli|load|no-overwrite",
+           why="Connection.backup replaces the destination database: a second load silently overwrites the first dataset instead of being refused")
 
 
 def _nonuniform(ctx, chk, load, lflow):
@@ -623,7 +673,7 @@ def _uniformity_shape(flow, g):
     return "UNRECOGNISED"
 
 
-def _missing_et(ctx, chk, load):
+def _missing_et(ctx, chk, load, rule="C11.O4"):
     found = False
     for fq in sorted(ctx.cg.reachable(load.fq)):
         f = ctx.cg.func(fq)
@@ -653,10 +703,10 @@ def _missing_et(ctx, chk, load):
                     and {"grid_time", "evapotranspiration_staging"} <= stmt_reads(s_.stmt)]
         untraced = [g_ for g_ in guards_of(f, include_assert=True)]
         if best is None and compares and untraced:
-            chk.indeterminate("C11.O4", where_of(f, compares[0].call), "a query compares grid_time with evapotranspiration_staging, but no raising guard could be traced to its result")
+            chk.indeterminate(rule, where_of(f, compares[0].call), "a query compares grid_time with evapotranspiration_staging, but no raising guard could be traced to its result")
             continue
         if best is None:
-            chk.ob("C11.O4", False, where_of(f, sites[0].call), "no refusal derived from a grid_time / evapotranspiration_staging comparison",
+            chk.ob(rule, False, where_of(f, sites[0].call), "no refusal derived from a grid_time / evapotranspiration_staging comparison",
                    "grid instants without ET are refused before evapotranspiration is written",
                    key="load|missing-et", why="the copy would silently produce fewer ET rows than grid steps")
             continue
@@ -666,7 +716,7 @@ def _missing_et(ctx, chk, load):
         pol_ok = nf is not None and nf[1] is True
         dom = all(flow.cfg.dominates(g.node, n) for n in wn)
         if anti is None:
-            chk.indeterminate("C11.O4", where_of(f, s.call), "missing-ET query is not a recognisable anti-join")
+            chk.indeterminate(rule, where_of(f, s.call), "missing-ET query is not a recognisable anti-join")
             continue
         # any further restriction of the grid instants examined must not exclude a step that gets an ET row
         restricted = None
@@ -693,10 +743,28 @@ def _missing_et(ctx, chk, load):
                     and restricted[1].replace("-2", "-1") == ins_bound[1].replace("-2", "-1") and restricted[1].endswith("[-1]"):
                 cover_ok = True
             cdesc = "grid instants examined: epoch %s %s; ET rows are inserted for epoch %s %s" % (restricted + (ins_bound or ("?", "?")))
-        chk.ob("C11.O4", cover_ok, where_of(f, s.call), cdesc,
+        chk.ob(rule, cover_ok, where_of(f, s.call), cdesc,
                "every grid step that gets an ET row is examined for missing ET", key="load|missing-et-coverage",
                why="ET missing exactly at an unexamined step is accepted silently: evapotranspiration ends up one row short")
-        chk.ob("C11.O4", anti and pol_ok and dom, where_of(f, g.stmt),
+        # the anti-join must run on every path to the guard: its query dominates the guard, and no other binding of the
+        # guard's subject (an empty default on a path that skips the query) reaches it
+        qnode = flow.cfg.node_containing(s.call)
+        q_dom = qnode is not None and flow.cfg.dominates(qnode, g.node)
+        if not q_dom:
+            skipped_when = None
+            a_ = getattr(enclosing_stmt(s.call), "parent", None)
+            while a_ is not None and a_ is not f.node:
+                if isinstance(a_, ast.If):
+                    skipped_when = ast.unparse(a_.test)[:70]
+                    break
+                a_ = getattr(a_, "parent", None)
+            chk.ob(rule, False, where_of(f, s.call),
+                   "the anti-join runs only on some paths to the guard%s; on the others `%s` is decided from a default" % (
+                       (" (inside `if %s`)" % skipped_when) if skipped_when else "", ast.unparse(g.expr)[:40]),
+                   "every grid instant is examined for missing ET on every path before evapotranspiration is written",
+                   key="load|missing-et-every-path",
+                   why="a shortcut test that lets the examination be skipped (a row count over a span, a flag) accepts inputs in which an ET row is missing at a grid instant: the step is silently left without ET")
+        chk.ob(rule, anti and pol_ok and dom, where_of(f, g.stmt),
                "guard raises when %s%s; query is %s; dominates %d/%d ET INSERTs"
                % ("not " if g.negated else "", ast.unparse(g.expr),
                   "anti-join grid_time \\ evapotranspiration_staging on epoch" if anti else "NOT the anti-join on epoch",
@@ -704,7 +772,7 @@ def _missing_et(ctx, chk, load):
                "any grid instant without an ET row raises before evapotranspiration is written",
                key="load|missing-et", why="the copy would silently produce fewer ET rows than grid steps")
     if not found:
-        chk.indeterminate("C11.O4", where_of(load, load.node), "no INSERT into evapotranspiration in the load tree")
+        chk.indeterminate(rule, where_of(load, load.node), "no INSERT into evapotranspiration in the load tree")
 
 
 def _preceding_execute(ctx, f, flow, fetch_call):
